@@ -217,3 +217,12 @@ Definition two_phase_obs (c : list (text * option text) * list (text * text)) : 
   | (s', Done) => (fs_obs (d_fs s'), 0)
   | (s', Failed _) => (fs_obs (d_fs s'), 1)
   end.
+
+(** an operator command, a counted put, and the same put again without a count (the count is the command's own: it does
+    not stay for the next one) *)
+Definition op_put_put_obs (c : (N * text * text * option motion * nat * nat) * bool * nat) : text * N * option (bool * text) :=
+  let '((k, ins, t, m, count, i), after, pc) := c in
+  let k := if k =? 0 then OpDelete else if k =? 1 then OpYank else OpChange in
+  let s := match m with Some m => run_op k ins t m count i | None => run_lines k ins t count i end in
+  let s' := put after 1 (put after pc s) in
+  (o_text s', N.of_nat (o_cur s'), o_reg s').
